@@ -139,7 +139,8 @@ Env::Env()
         stk_lo = m + 4096;
         stk_hi = stk_lo + STK;
         mprotect(stk_lo, STK, PROT_READ | PROT_WRITE);
-        call_rsp = ((uint64_t) (uintptr_t) stk_hi - 256) & ~(uint64_t) 63;
+        base_rsp = ((uint64_t) (uintptr_t) stk_hi - 256) & ~(uint64_t) 63;
+        call_rsp = base_rsp;
         poison_ref.resize(DEAD + ABOVE);
         frame = (SimFrame *) aligned_alloc(64, sizeof(SimFrame));
         memset(frame, 0, sizeof(SimFrame));
@@ -162,6 +163,11 @@ void Env::begin_run(uint64_t hidden_seed, RunResult *r)
         scan_secrets = false;
         tainted = false;
         hidden.fill(poison_ref.data(), poison_ref.size());
+        // the stack phase is undeclared state too: the ABI only promises rsp % 16 == 8 at entry, so every run picks one
+        // of the four phases modulo 64 (a 64-byte aligned trampoline stack would always enter at 56)
+        stack_phase = (int) hidden.below(4);
+        call_rsp = base_rsp - 16 * (uint64_t) stack_phase;
+        r->cov.hit(strfmt("stack_phase_rsp_mod64_%d", (int) ((call_rsp - 8) % 64)));
         memcpy((uint8_t *) (uintptr_t) call_rsp - DEAD, poison_ref.data(), poison_ref.size());
 }
 void Env::end_run() { res = nullptr; }
